@@ -1209,3 +1209,7 @@ func HoldTime(on bool) {
 		s.holdTime = on
 	}
 }
+
+// Spin yields the processor while a select-with-default waits for its
+// rendezvous partner to reach the real channel operation (see kcinstr).
+func Spin() { runtime.Gosched() }
